@@ -69,6 +69,16 @@ def run_case(case, ctx):
         if case['route'] == 'api':
             with env.quiet():
                 with SgzConverter(sgz) as c:
+                    pre = ctx['rng'].choice(['none', 'none', 'tracefield', 'header', 'samples'])
+                    # the exporter is also a reader: what was read through it before must not change what it exports
+                    if pre == 'tracefield':
+                        stored = [int(k) for k, v in c.segy_traceheader_template.items() if type(v).__name__ == 'FileOffset']
+                        if stored:
+                            c.get_tracefield_values(stored[0])
+                    elif pre == 'header':
+                        c.gen_trace_header(0)
+                    elif pre == 'samples':
+                        c.get_trace(c.tracecount - 1)
                     c.convert_to_segy(exp)
         else:
             from click.testing import CliRunner
